@@ -65,6 +65,8 @@ TrDetach   == /\ Ev.op = "detach"
 TrRegister == /\ Ev.op = "register"
               /\ \/ Ev.out = "ok" /\ \E v \in Both : RegisterManual(Ev.a, Ev.T, v)
                  \/ Ev.out = "KeyError" /\ RegisterRejected(Ev.a, Ev.T)
+\* model.set_environment(env) for an environment that may already be populated: nothing observable changes
+TrInstall  == Ev.op = "install" /\ Ev.out = "ok" /\ UNCHANGED vars
 TrLookup   == /\ Ev.op = "lookup" /\ UNCHANGED vars
               /\ IF IdTaken(Ev.m, Ev.id) THEN Ev.out = "ok" /\ Ev.res = Lookup(Ev.m, Ev.id)
                  ELSE IF Ev.strict THEN Ev.out = "AgentNotFoundError" ELSE Ev.out = "ok" /\ Ev.res = NoAgent
@@ -77,9 +79,10 @@ TrMoveTo   == /\ Ev.op = "move_to"
                  \/ Ev.out = "ComponentNotFoundError" /\ Ev.a \notin DOMAIN pos /\ MoveToRejected(Ev.a, Ev.p)
 TrAgentsAt == /\ Ev.op = "agents_at" /\ Ev.out = "ok"
               /\ UNCHANGED <<world, agents, env, pool, pos>>
-              /\ \/ Ev.res = AgentsAtSpec(Ev.m, Ev.q, Ev.l, Ev.al) /\ dev' = dev
-                 \/ /\ world[Ev.m].wrap /\ Ev.res # AgentsAtSpec(Ev.m, Ev.q, Ev.l, Ev.al)
-                    /\ Ev.res = AgentsAt(Ev.m, Ev.q, Ev.l, Ev.al, FALSE) /\ dev' = dev \cup {"F5"}
+              /\ Ev.res2 = Ev.res                  \* asked again after the caller edited the first answer: the same answer
+              /\ \/ Ev.res = AgentsAtQ(Ev.m, Ev.q, Ev.l, Ev.al, world[Ev.m].wrap, Ev.qs) /\ dev' = dev
+                 \/ /\ world[Ev.m].wrap /\ Ev.res # AgentsAtQ(Ev.m, Ev.q, Ev.l, Ev.al, TRUE, Ev.qs)
+                    /\ Ev.res = AgentsAtQ(Ev.m, Ev.q, Ev.l, Ev.al, FALSE, Ev.qs) /\ dev' = dev \cup {"F5"}
 TrGetAgents == /\ Ev.op = "get_agents" /\ Ev.out = "ok" /\ UNCHANGED vars
                /\ Ev.res = GetAgents(Ev.m, Range(Ev.tpl), Ev.hastag, Ev.tag)
 TrPick     == /\ Ev.op = "pick" /\ Ev.out = "ok" /\ UNCHANGED vars
@@ -110,7 +113,7 @@ TrGeom == /\ Ev.op = "geom" /\ Ev.out = "ok" /\ UNCHANGED vars
 TraceInit == /\ Init /\ tid \in 1..Len(Traces) /\ l = 1
 
 TraceNext == /\ l <= Len(Traces[tid]) /\ l' = l + 1 /\ UNCHANGED tid
-             /\ (TrNewModel \/ TrNewAgent \/ TrJoin \/ TrLeave \/ TrAttach \/ TrDetach \/ TrRegister \/ TrLookup
+             /\ (TrNewModel \/ TrNewAgent \/ TrInstall \/ TrJoin \/ TrLeave \/ TrAttach \/ TrDetach \/ TrRegister \/ TrLookup
                  \/ TrMove \/ TrMoveTo \/ TrMoveSat \/ TrDims \/ TrGeom \/ TrAgentsAt \/ TrGetAgents \/ TrPick \/ TrShuffle)
              /\ ObsOK(Ev.obs, world', agents', env', pool', pos')
 
